@@ -6,24 +6,65 @@ import (
 	"encoding/json"
 	"fmt"
 	"sort"
+	"strconv"
+	"strings"
 
 	"github.com/feichai0017/NoKV/kv"
 )
 
 // HB is a byte string rendered as hex in replay files (user keys contain 0x00/0xFF).
+// Long keys (the generator builds them by repeating a short segment) are written
+// as "~<period hex>*<n>~<rest hex>": n bytes of the repeated period, then the rest.
 type HB []byte
 
-func (h HB) MarshalJSON() ([]byte, error) { return json.Marshal(hex.EncodeToString(h)) }
+func (h HB) MarshalJSON() ([]byte, error) {
+	if len(h) > 64 {
+		for p := 1; p <= 3; p++ {
+			m := p
+			for m < len(h) && h[m] == h[m-p] {
+				m++
+			}
+			if m >= len(h)-8 {
+				return json.Marshal(fmt.Sprintf("~%s*%d~%s", hex.EncodeToString(h[:p]), m, hex.EncodeToString(h[m:])))
+			}
+		}
+	}
+	return json.Marshal(hex.EncodeToString(h))
+}
+
 func (h *HB) UnmarshalJSON(b []byte) error {
 	var s string
 	if err := json.Unmarshal(b, &s); err != nil {
 		return err
 	}
+	var out []byte
+	if strings.HasPrefix(s, "~") {
+		parts := strings.SplitN(s[1:], "~", 2)
+		if len(parts) != 2 {
+			return fmt.Errorf("bad key %q", s)
+		}
+		pn := strings.SplitN(parts[0], "*", 2)
+		if len(pn) != 2 {
+			return fmt.Errorf("bad key %q", s)
+		}
+		per, err := hex.DecodeString(pn[0])
+		if err != nil || len(per) == 0 {
+			return fmt.Errorf("bad key %q", s)
+		}
+		n, err := strconv.Atoi(pn[1])
+		if err != nil || n < 0 || n > 1<<20 {
+			return fmt.Errorf("bad key %q", s)
+		}
+		for i := 0; i < n; i++ {
+			out = append(out, per[i%len(per)])
+		}
+		s = parts[1]
+	}
 	d, err := hex.DecodeString(s)
 	if err != nil {
 		return err
 	}
-	*h = d
+	*h = append(out, d...)
 	return nil
 }
 
@@ -48,7 +89,14 @@ type Tgt struct {
 
 func (e Ent) tgt() Tgt { return Tgt{e.CF, e.K, e.V} }
 
-func (t Tgt) String() string { return fmt.Sprintf("(cf=%d key=%x ver=%d)", t.CF, []byte(t.K), t.V) }
+func (t Tgt) String() string { return fmt.Sprintf("(cf=%d key=%s ver=%d)", t.CF, keyStr(t.K), t.V) }
+
+func keyStr(k []byte) string {
+	if len(k) > 48 {
+		return fmt.Sprintf("%x…%x[%dB]", k[:16], k[len(k)-16:], len(k))
+	}
+	return hex.EncodeToString(k)
+}
 
 // ikey encodes with the repository's encoder: this defines the input domain
 // (what callers hand to the memtable), it is not part of the oracle.
@@ -91,7 +139,8 @@ func sameUser(a, b Tgt) bool { return a.CF == b.CF && bytes.Equal(a.K, b.K) }
 // stored is one element of the reference ordered map.
 type stored struct {
 	Tgt
-	vals []Ent // acceptable stored values (exactly one for sequential inserts)
+	key  []byte // encoded internal key
+	vals []Ent  // acceptable stored values (exactly one for sequential inserts)
 }
 
 // refMap is the sorted-slice reference.
@@ -100,8 +149,10 @@ type refMap []stored
 // buildRef: sequential semantics, the last Add of an internal key wins.
 func buildRef(ents []Ent) refMap {
 	last := map[string]int{}
+	keys := make([][]byte, len(ents))
 	for i, e := range ents {
-		last[string(ikey(e.tgt()))] = i
+		keys[i] = ikey(e.tgt())
+		last[string(keys[i])] = i
 	}
 	idx := make([]int, 0, len(last))
 	for _, i := range last {
@@ -110,7 +161,7 @@ func buildRef(ents []Ent) refMap {
 	sort.Ints(idx) // determinism before the real sort
 	out := make(refMap, 0, len(idx))
 	for _, i := range idx {
-		out = append(out, stored{Tgt: ents[i].tgt(), vals: []Ent{ents[i]}})
+		out = append(out, stored{Tgt: ents[i].tgt(), key: keys[i], vals: []Ent{ents[i]}})
 	}
 	sort.SliceStable(out, func(i, j int) bool { return cmpRef(out[i].Tgt, out[j].Tgt) < 0 })
 	return out
@@ -185,18 +236,32 @@ func prefixRelated(a, b Tgt) bool {
 
 // f7Class classifies a pair of internal keys with respect to the open finding:
 // "" (raw radix order agrees with internal-key order), "order" (raw byte order
-// of the encoded keys is the opposite of internal-key order) or "pad" (the
-// encoded keys are different but equal once the shorter is zero-padded).
+// of the encoded keys is the opposite of internal-key order) or "pad" (one
+// encoded key is a proper byte-prefix of the other and the next byte of the
+// longer one is 0x00, which is also what the radix tree reads past the end of
+// the shorter one: both keys want the same child slot).
 // Only pairs with prefix-related user keys can be in a non-empty class.
-func f7Class(a, b Tgt) string {
+func f7Class(a, b Tgt) string { return f7ClassK(a, b, nil, nil) }
+
+// f7ClassK is f7Class with optionally pre-encoded keys.
+func f7ClassK(a, b Tgt, ka, kb []byte) string {
 	if !prefixRelated(a, b) {
 		return ""
 	}
-	raw := paddedRaw(ikey(a), ikey(b))
-	if raw == 0 {
+	if ka == nil {
+		ka = ikey(a)
+	}
+	if kb == nil {
+		kb = ikey(b)
+	}
+	s, l := ka, kb
+	if len(s) > len(l) {
+		s, l = l, s
+	}
+	if bytes.Equal(s, l[:len(s)]) && l[len(s)] == 0 {
 		return "pad"
 	}
-	if sign(raw) != sign(cmpRef(a, b)) {
+	if sign(paddedRaw(ka, kb)) != sign(cmpRef(a, b)) {
 		return "order"
 	}
 	return ""
